@@ -519,9 +519,8 @@ Proof. split; [repeat constructor; simpl; intros; congruence|]. vm_compute. repe
    operations and appends their events to the history.  Then ~World runs (OTeardown: archetypes first, then the
    command buffers).  The complete history is accepted by the bracket checker and no place stays alive: every cell
    and every temporary parked in a command buffer is destroyed exactly once.
-   NOT proved at history level: sections closed by unlock (the flush moves temporaries into archetypes); what is
-   missing is stated at the end of proofs/LifecycleLocked.v -- the refinement invariant of the locked alphabet for
-   the Manager model, because the checker accepts a flush only under the contract of the deferred interface. *)
+   Sections closed by unlock (the flush moves temporaries into archetypes) are the subject of section 7 below: the
+   checker accepts a flush only under the contract of the deferred interface stated there. *)
 From Mustache.proofs Require Import LifecycleLocked.
 
 Theorem C03_history_locked_teardown_no_leak : forall typed n cis ops s hs hist lops s2 hist2 s' r,
@@ -589,3 +588,275 @@ Proof.
   exists s, hs, hist, L, s1, out. split; [reflexivity|]. split; [|exact Hst].
   apply (LK_first hx_cis s hs al _ L HI Hlog Hbufs Htmps HL).
 Qed.
+
+(* ================================================================================================ *)
+(* 7. HISTORY LEVEL with lock / unlock sections that are FLUSHED                                     *)
+(* proofs/LifecycleFlushLang.v, LifecycleFlushPack.v, LifecycleFlushMain.v, LifecycleFlushSpec.v.
+   Scripts over ManagerLockedMain.alphaL_b -- the alphabet of C05_locked_refines_on: creation, destroyNow, destroy,
+   assign typed/untyped with or without value, removeComponent, write through getComponent, update, lock, unlock (nested
+   or not), from any thread -- with the hypotheses of C05_locked_refines_on, lc_cis_ok on the component table, and the
+   CONTRACT of the deferred interface that the bracket checker needs on top of x_viol = 0:
+       within one pack (the consecutive commands one thread records on one entity in one locked section) no component
+       is removed and assigned afterwards.
+   It is a decidable hypothesis on the script in two forms:
+       xra_script n cis ops     evaluated on the SPECIFICATION alone: at every unlock that flushes, no buffer of the
+                                specification holds `remove c` followed by `assign c` within a run of commands on one entity;
+       ra_script typed n cis ops  evaluated on the model's buffers (packs as applyCommandPack sees them; more permissive:
+                                a command through a handle that was never issued splits a pack); implied by xra_script (7g).
+   x_viol = 0 does NOT imply it (the specification applies the commands one at a time: remove, then assign is fine
+   there) and without it the implementation move-constructs a parked temporary over a LIVE instance: see the three
+   witnesses below (the bracket checker rejects the history although the refinement of C05 holds on them).  With it,
+   x_viol = 0 gives exactly what the checker needs: within a pack every assigned component is new to the entity and is
+   assigned once (7f; LifecycleFlushPack.pack_fresh_ok).
+   The history is hrun (section 5: the log of every operation appended).  Live places:
+       live_comp_place  the cells of the tracked components of the live entities of the SPECIFICATION state
+                        (while locked: the state of the last flush -- recorded commands have not happened yet);
+       parked cis s p   p = PTmp (epoch * 64 + thread) n is the temporary of a recorded assign command of a tracked type
+                        in a command buffer of s (LifecycleLocked.tmp_live). *)
+From Mustache.proofs Require Import ManagerPack ManagerLocked ManagerLockedMain LifecycleFlushLang LifecycleFlushPack LifecycleFlushMain LifecycleFlushSpec.
+
+(* (7a) the whole history is accepted; the places alive are the cells of the tracked components of the live entities
+   plus the parked temporaries; when the manager is not locked there are no parked temporaries *)
+Theorem C03_history_flush : forall typed n cis ops s hs hist,
+  cis_ok cis -> lc_cis_ok cis -> forallb (alphaL_b cis) ops = true ->
+  hrun typed n cis ops = Ok (s, hs, hist) -> x_viol (xrun n cis ops) = 0 -> (N.of_nat (length hs) < 16777000)%N ->
+  xra_script n cis ops = true ->
+  lc_ok (destroy_pals cis) hist = true /\
+  (forall p, In p (lc_live (destroy_pals cis) hist) <-> (live_comp_place cis s hs (xrun n cis ops) p \/ parked cis s p)) /\
+  (lockc s = 0 -> forall p, In p (lc_live (destroy_pals cis) hist) <-> live_comp_place cis s hs (xrun n cis ops) p).
+Proof. exact history_flush_spec. Qed.
+Print Assumptions C03_history_flush.
+
+(* (7b) world destruction after such a script, LOCKED OR NOT (buffers empty or not): nothing stays alive *)
+Theorem C03_history_flush_teardown_no_leak : forall typed n cis ops s hs hist s' r,
+  cis_ok cis -> lc_cis_ok cis -> forallb (alphaL_b cis) ops = true ->
+  hrun typed n cis ops = Ok (s, hs, hist) -> x_viol (xrun n cis ops) = 0 -> (N.of_nat (length hs) < 16777000)%N ->
+  xra_script n cis ops = true ->
+  step s OTeardown = Ok (s', r) ->
+  lc_ok (destroy_pals cis) (hist ++ rev (log s')) = true /\ lc_live (destroy_pals cis) (hist ++ rev (log s')) = [].
+Proof. exact history_flush_teardown_spec. Qed.
+Print Assumptions C03_history_flush_teardown_no_leak.
+
+(* (7c) "at every point": the same after every prefix of the script, teardown included *)
+Theorem C03_history_flush_every_point : forall typed n cis ops1 ops2 s hs hist,
+  cis_ok cis -> lc_cis_ok cis -> forallb (alphaL_b cis) (ops1 ++ ops2) = true ->
+  hrun typed n cis (ops1 ++ ops2) = Ok (s, hs, hist) -> x_viol (xrun n cis (ops1 ++ ops2)) = 0 ->
+  (N.of_nat (length hs) < 16777000)%N -> xra_script n cis (ops1 ++ ops2) = true ->
+  exists s1 hs1 hist1, hrun typed n cis ops1 = Ok (s1, hs1, hist1) /\
+    lc_ok (destroy_pals cis) hist1 = true /\
+    (forall p, In p (lc_live (destroy_pals cis) hist1) <-> (live_comp_place cis s1 hs1 (xrun n cis ops1) p \/ parked cis s1 p)) /\
+    (lockc s1 = 0 -> forall p, In p (lc_live (destroy_pals cis) hist1) <-> live_comp_place cis s1 hs1 (xrun n cis ops1) p) /\
+    (forall s' r, step s1 OTeardown = Ok (s', r) ->
+       lc_ok (destroy_pals cis) (hist1 ++ rev (log s')) = true /\ lc_live (destroy_pals cis) (hist1 ++ rev (log s')) = []).
+Proof. exact history_flush_every_point_spec. Qed.
+Print Assumptions C03_history_flush_every_point.
+
+(* (7d) the flush itself, from a state related to the specification (LR: the relation of C05): whatever the checker's
+   live set L was, if it held the occupied tracked cells and the parked temporaries, the events of the flush are
+   accepted from L and lead to the occupied tracked cells of the new state and NO temporary (LS .. (fun _ => False)) *)
+Theorem C03_flush_preserves_live_places : forall cis s hs x s' L,
+  LR cis s hs x -> cis_ok cis -> lc_cis_ok cis -> (N.of_nat (length hs) < 16777000)%N ->
+  x_viol (x_flush (xw_lock x 0)) = x_viol x -> tmps_wf s -> packs_ok s = true ->
+  flush (set_lock s 0) = Ok s' ->
+  LS cis s (parked cis s) L ->
+  exists evs L', log s' = rev evs ++ log s /\ lc_run (destroy_pals cis) L evs = Some L' /\ LS cis s' (fun _ => False) L'.
+Proof. exact P_flush. Qed.
+Print Assumptions C03_flush_preserves_live_places.
+
+(* (7e) function level, all states: the last loop of applyCommandPack emits, per assign command of the pack in order,
+   one move construction from the parked temporary into the entity's cell (types with a logging move constructor) and
+   the afterAssign callback; it changes no member list; it fails unless every assigned component is in the final mask *)
+Theorem C03_pack_assign_loop_events : forall cis tid h0 ai a idx p st s',
+  cinfos st = cis -> fold_res (wr_step tid h0 ai a idx) p st = Ok s' ->
+  log s' = rev (wr_events cis (epoch st * 64 + tid) h0 ai idx p) ++ log st /\
+  (forall q, aplace cis (archs s') q <-> aplace cis (archs st) q) /\
+  (forall c, In c (asg_cids p) -> mhas (am_mask a) c = true).
+Proof.
+  intros cis tid h0 ai a idx p st s' Hc H. destruct (wr_fold_tr cis tid h0 ai a idx p st s' Hc H) as (T & P & M).
+  split; [exact (tr_log _ _ _ _ T)|]. split; [exact P|exact M].
+Qed.
+Print Assumptions C03_pack_assign_loop_events.
+
+(* (7f) the contract: a pack in which every assign meets an entity without the component (what x_viol = 0 gives) and
+   no component is assigned after it was removed, assigns every component at most once and only components that are
+   new to the entity *)
+Theorem C03_pack_contract : forall p fm, pack_fresh fm p = true -> ra_ok [] p = true -> pack_once fm p = true.
+Proof. intros p fm Hf Hr. apply (fresh_ra_once p fm [] fm Hf Hr). auto. Qed.
+Print Assumptions C03_pack_contract.
+
+(* (7g) the contract checked on the specification implies the contract checked on the model's buffers ... *)
+Theorem C03_spec_contract_implies_model_contract : forall typed n cis ops s hs hist,
+  cis_ok cis -> lc_cis_ok cis -> forallb (alphaL_b cis) ops = true ->
+  hrun typed n cis ops = Ok (s, hs, hist) -> x_viol (xrun n cis ops) = 0 -> (N.of_nat (length hs) < 16777000)%N ->
+  xra_script n cis ops = true -> ra_script typed n cis ops = true.
+Proof. exact xra_script_ra_script. Qed.
+Print Assumptions C03_spec_contract_implies_model_contract.
+
+(* (7h) ... and (7a), (7b) hold under the model-level contract as well *)
+Theorem C03_history_flush_model_contract : forall typed n cis ops s hs hist,
+  cis_ok cis -> lc_cis_ok cis -> forallb (alphaL_b cis) ops = true ->
+  hrun typed n cis ops = Ok (s, hs, hist) -> x_viol (xrun n cis ops) = 0 -> (N.of_nat (length hs) < 16777000)%N ->
+  ra_script typed n cis ops = true ->
+  lc_ok (destroy_pals cis) hist = true /\
+  (forall p, In p (lc_live (destroy_pals cis) hist) <-> (live_comp_place cis s hs (xrun n cis ops) p \/ parked cis s p)) /\
+  (lockc s = 0 -> forall p, In p (lc_live (destroy_pals cis) hist) <-> live_comp_place cis s hs (xrun n cis ops) p) /\
+  (forall s' r, step s OTeardown = Ok (s', r) ->
+     lc_ok (destroy_pals cis) (hist ++ rev (log s')) = true /\ lc_live (destroy_pals cis) (hist ++ rev (log s')) = []).
+Proof.
+  intros typed n cis ops s hs hist Hok Hlok Ha Hrun Hv Hb Hra.
+  destruct (history_flush typed n cis ops s hs hist Hok Hlok Ha Hrun Hv Hb Hra) as (A & B & C).
+  split; [exact A|]. split; [exact B|]. split; [exact C|]. intros s' r Htd.
+  exact (history_flush_teardown typed n cis ops s hs hist s' r Hok Hlok Ha Hrun Hv Hb Hra Htd).
+Qed.
+Print Assumptions C03_history_flush_model_contract.
+
+(* ---- non-vacuity -------------------------------------------------------------------------------- *)
+(* hx_cis (section 5): 1 instrumented (palette 2), 2 instrumented with callbacks (palette 3), 3 described at run time and
+   tracked (palette 8), 4 described at run time, logging, not tracked (palette 9).  Two threads.
+   Entities 0 = {1}, 1 = {2}, 2 = {}.  Locked: thread 0 assigns 2 to entity 0; thread 1 assigns 3 (typed, value 7) to
+   entity 1, creates entity 3 = {1} and assigns 2 to it (one pack: creation + assign); nested lock; thread 0 destroys
+   entity 2 at once; thread 1 assigns 1 to entity 2 (its pack comes after thread 0's buffer: the target is dead, the
+   temporary is only destroyed); thread 0 assigns 3 to entity 0 (a second pack on it) and removes 2 from entity 1;
+   nested unlock; unlock (flush).  Then unlocked operations, a second section with a destroy(), and update(). *)
+Definition fx_script : list xop :=
+  [XoCreate 0 2%N [] false; XoCreate 0 4%N [] false; XoCreate 0 0%N [] false;
+   XoLock;
+   XoAssign 0 0 2 None; XoAssign 1 1 3 (Some 7%Z); XoCreate 1 2%N [] false; XoAssign 1 3 2 None;
+   XoLock;
+   XoDestroyNow 0 2; XoAssign 1 2 1 None; XoAssign 0 0 3 None; XoRemove 0 1 2 false;
+   XoUnlock; XoUnlock;
+   XoAssign 0 1 1 (Some 5%Z); XoDestroyNow 0 0; XoCreate 0 6%N [] false; XoSet 3 1 9%Z;
+   XoLock; XoAssign 0 3 3 None; XoDestroy 1 1; XoUnlock; XoUpdate].
+
+Example C03_history_flush_nonvacuous :
+  cis_ok hx_cis /\ lc_cis_ok hx_cis /\ forallb (alphaL_b hx_cis) fx_script = true /\ x_viol (xrun 2 hx_cis fx_script) = 0 /\
+  xra_script 2 hx_cis fx_script = true /\
+  (forall typed, ra_script typed 2 hx_cis fx_script = true /\ refines_on typed 2 hx_cis fx_script = true) /\
+  exists s hs hist s' r,
+     hrun true 2 hx_cis fx_script = Ok (s, hs, hist) /\ (N.of_nat (length hs) < 16777000)%N /\
+     hs = [(0, 0); (1, 0); (2, 0); (3, 0); (0, 1)]%N /\ lockc s = 0 /\
+     map am_mask (archs s) = [2; 4; 0; 6; 14; 8; 10]%N /\
+     map am_ents (archs s) = [[]; []; []; [(0, 1)]; [(3, 0)]; []; []]%N /\
+     length hist = 49 /\
+     (* the flush of the first section: thread 0's packs, its temporaries destroyed, then thread 1's *)
+     firstn 20 (skipn 8 hist) =
+       [EvMC 2 (PArch 3 1 0) (PArch 0 1 0); EvD 2 (PArch 0 1 0); EvMC 3 (PArch 3 2 0) (PTmp 0 0); EvAA 3 (PArch 3 2 0) (0, 0)%N;
+        EvMC 2 (PArch 4 1 0) (PArch 3 1 0); EvMC 3 (PArch 4 2 0) (PArch 3 2 0); EvD 2 (PArch 3 1 0); EvD 3 (PArch 3 2 0);
+        EvMC 8 (PArch 4 3 0) (PTmp 0 1);
+        EvBR 3 (PArch 1 2 0) (1, 0)%N; EvD 3 (PArch 1 2 0);
+        EvD 3 (PTmp 0 0); EvD 8 (PTmp 0 1);
+        EvMC 8 (PArch 5 3 0) (PTmp 1 0);
+        EvC 2 (PArch 3 1 0); EvMC 3 (PArch 3 2 0) (PTmp 1 1); EvAA 3 (PArch 3 2 0) (3, 0)%N;
+        EvD 8 (PTmp 1 0); EvD 3 (PTmp 1 1); EvD 2 (PTmp 1 2)] /\
+     lc_ok (destroy_pals hx_cis) hist = true /\
+     lc_live (destroy_pals hx_cis) hist = [PArch 4 3 0; PArch 4 2 0; PArch 4 1 0; PArch 3 2 0; PArch 3 1 0] /\
+     step s OTeardown = Ok (s', r) /\ lc_live (destroy_pals hx_cis) (hist ++ rev (log s')) = [].
+Proof.
+  split; [exact (proj1 hx_cis_ok)|]. split; [exact (proj2 hx_cis_ok)|]. split; [vm_compute; reflexivity|].
+  split; [vm_compute; reflexivity|]. split; [vm_compute; reflexivity|]. split; [intros typed; destruct typed; split; vm_compute; reflexivity|].
+  do 5 eexists. ex_tac.
+Qed.
+
+(* teardown in the middle of the first section (after the nested unlock, before the flush): five parked temporaries
+   (one of them for a dead target) and two occupied cells are alive; ~World destroys each of them once *)
+Example C03_history_flush_teardown_locked_nonvacuous : exists s hs hist s' r,
+  hrun true 2 hx_cis (firstn 14 fx_script) = Ok (s, hs, hist) /\ lockc s = 1 /\
+  xra_script 2 hx_cis (firstn 14 fx_script) = true /\ x_viol (xrun 2 hx_cis (firstn 14 fx_script)) = 0 /\
+  bufs s = [[AAssign (0, 0) 2 0; ADestroyNow (2, 0); AAssign (0, 0) 3 1; ARemove (1, 0) 2];
+            [AAssign (1, 0) 3 0; ACreate (3, 0) true 2 si_null; AAssign (3, 0) 2 1; AAssign (2, 0) 1 2]]%N /\
+  lc_live (destroy_pals hx_cis) hist = [PTmp 0 1; PTmp 1 2; PTmp 1 1; PTmp 1 0; PTmp 0 0; PArch 1 2 0; PArch 0 1 0] /\
+  step s OTeardown = Ok (s', r) /\
+  rev (log s') = [EvD 2 (PArch 0 1 0); EvD 3 (PArch 1 2 0); EvD 3 (PTmp 0 0); EvD 8 (PTmp 0 1); EvD 8 (PTmp 1 0); EvD 3 (PTmp 1 1); EvD 2 (PTmp 1 2)] /\
+  lc_ok (destroy_pals hx_cis) (hist ++ rev (log s')) = true /\ lc_live (destroy_pals hx_cis) (hist ++ rev (log s')) = [].
+Proof. do 5 eexists. ex_tac. Qed.
+
+(* the hypotheses of the flush theorem (7d) on a reachable state: the state before the flushing unlock of fx_script *)
+Example C03_flush_nonvacuous : exists s hs hist x L s',
+  hrun true 2 hx_cis (firstn 14 fx_script) = Ok (s, hs, hist) /\ x = xrun 2 hx_cis (firstn 14 fx_script) /\
+  LR hx_cis s hs x /\ x_viol (x_flush (xw_lock x 0)) = x_viol x /\ tmps_wf s /\ packs_ok s = true /\
+  flush (set_lock s 0) = Ok s' /\ LS hx_cis s (parked hx_cis s) L /\ L = lc_live (destroy_pals hx_cis) hist.
+Proof.
+  assert (E15 : exists r, hrun true 2 hx_cis (firstn 14 fx_script ++ [XoUnlock]) = Ok r) by (eexists; vm_compute; reflexivity).
+  destruct E15 as (r15 & E15). apply hrun_snoc in E15. destruct E15 as (s & hs & hist & E & Hs).
+  assert (Ha : forallb (alphaL_b hx_cis) (firstn 14 fx_script) = true) by (vm_compute; reflexivity).
+  assert (Hv : x_viol (xrun 2 hx_cis (firstn 14 fx_script)) = 0) by (vm_compute; reflexivity).
+  assert (Hra : ra_script true 2 hx_cis (firstn 14 fx_script) = true) by (vm_compute; reflexivity).
+  assert (El : length hs = 4 /\ lockc s = 1 /\ packs_ok s = true).
+  { pose proof (f_equal (fun r => match r with Ok (s0, hs0, _) => (length hs0, lockc s0, packs_ok s0) | Err _ => (0, 0, false) end) E) as E'.
+    vm_compute in E'. inversion E'. auto. }
+  destruct El as (El & Elk & Epk).
+  assert (Hb : (N.of_nat (length hs) < 16777000)%N) by (rewrite El; vm_compute; reflexivity).
+  destruct (hrun_HL true 2 hx_cis _ s hs hist (proj1 hx_cis_ok) (proj2 hx_cis_ok) Ha E Hv Hb Hra) as [HR Hlog Hwf (L & Hr & HL)].
+  unfold hstep in Hs. apply bind_ok in Hs. destruct Hs as ((s1, out) & Hst & _). cbn [concretize] in Hst.
+  rewrite step_unlock_flush in Hst by (rewrite Elk; auto). apply bind_ok in Hst. destruct Hst as (s2 & Hfl & _).
+  exists s, hs, hist, (xrun 2 hx_cis (firstn 14 fx_script)), L, s2.
+  split; [exact E|]. split; [reflexivity|]. split; [exact HR|]. split; [vm_compute; reflexivity|]. split; [exact Hwf|]. split; [exact Epk|].
+  split; [exact Hfl|]. split; [exact HL|]. unfold lc_live. rewrite Hr. reflexivity.
+Qed.
+
+(* (7e) on the state sB of section 2 ... the loop on a reachable mid-flush state is exercised by the scripts above; the
+   contract (7f) on the packs of fx_script and on a pack that violates it *)
+Example C03_pack_contract_nonvacuous :
+  pack_fresh 2%N [AAssign (0, 0)%N 2 0] = true /\ ra_ok [] [AAssign (0, 0)%N 2 0] = true /\ pack_once 2%N [AAssign (0, 0)%N 2 0] = true /\
+  pack_fresh 2%N [ARemove (0, 0)%N 1; AAssign (0, 0)%N 1 0] = true /\ ra_ok [] [ARemove (0, 0)%N 1; AAssign (0, 0)%N 1 0] = false /\
+  pack_once 2%N [ARemove (0, 0)%N 1; AAssign (0, 0)%N 1 0] = false.
+Proof. vm_compute. repeat split. Qed.
+
+(* ---- the contract is needed: x_viol = 0 does not exclude these, C05's refinement holds on them, and the event stream
+   shows a move construction over a live instance (the checker rejects it) ---- *)
+Definition fx_cis : list cinfo := [pal_info 0 0; pal_info 2 0].
+Definition hist_of2 (cis : list cinfo) (ops : list xop) : list event :=
+  match hrun false 2 cis ops with Ok (_, _, hist) => hist | Err _ => [] end.
+
+(* removeComponent then assign of the same component in one pack, on an entity that has it: the component set does not
+   change, nothing is destroyed, and the temporary is move-constructed over the live cell *)
+Example C03_remove_then_assign_constructs_over_live_instance :
+  let ops := [XoCreate 0 2%N [] false; XoLock; XoRemove 0 0 1 false; XoAssign 0 0 1 None; XoUnlock] in
+  cis_ok fx_cis /\ lc_cis_ok fx_cis /\ forallb (alphaL_b fx_cis) ops = true /\ x_viol (xrun 2 fx_cis ops) = 0 /\
+  refines_on false 2 fx_cis ops = true /\ xra_script 2 fx_cis ops = false /\ ra_script false 2 fx_cis ops = false /\
+  hist_of2 fx_cis ops = [EvC 2 (PArch 0 1 0); EvC 2 (PTmp 0 0); EvMC 2 (PArch 0 1 0) (PTmp 0 0); EvD 2 (PTmp 0 0)] /\
+  lc_ok (destroy_pals fx_cis) (hist_of2 fx_cis ops) = false.
+Proof.
+  split; [unfold cis_ok, fx_cis; repeat constructor; simpl; intros; congruence|]. split; [apply lc_cis_okb_ok; vm_compute; reflexivity|].
+  vm_compute. repeat split.
+Qed.
+
+(* the same with another assign in the pack: the entity moves, the cell is move-constructed from the old cell AND from
+   the temporary *)
+Example C03_remove_then_assign_constructs_twice :
+  let ops := [XoCreate 0 2%N [] false; XoLock; XoRemove 0 0 1 false; XoAssign 0 0 1 None; XoAssign 0 0 0 None; XoUnlock] in
+  forallb (alphaL_b fx_cis) ops = true /\ x_viol (xrun 2 fx_cis ops) = 0 /\
+  refines_on false 2 fx_cis ops = true /\ xra_script 2 fx_cis ops = false /\ ra_script false 2 fx_cis ops = false /\
+  hist_of2 fx_cis ops = [EvC 2 (PArch 0 1 0); EvC 2 (PTmp 0 0); EvMC 2 (PArch 1 1 0) (PArch 0 1 0); EvD 2 (PArch 0 1 0);
+                         EvMC 2 (PArch 1 1 0) (PTmp 0 0); EvD 2 (PTmp 0 0)] /\
+  lc_ok (destroy_pals fx_cis) (hist_of2 fx_cis ops) = false.
+Proof. vm_compute. repeat split. Qed.
+
+(* assign, remove, assign again in one pack on an entity without the component: two temporaries are move-constructed
+   into the same cell *)
+Example C03_assign_remove_assign_constructs_twice :
+  let ops := [XoCreate 0 1%N [] false; XoLock; XoAssign 0 0 1 None; XoRemove 0 0 1 false; XoAssign 0 0 1 None; XoUnlock] in
+  forallb (alphaL_b fx_cis) ops = true /\ x_viol (xrun 2 fx_cis ops) = 0 /\
+  refines_on false 2 fx_cis ops = true /\ xra_script 2 fx_cis ops = false /\ ra_script false 2 fx_cis ops = false /\
+  hist_of2 fx_cis ops = [EvC 2 (PTmp 0 0); EvC 2 (PTmp 0 1); EvMC 2 (PArch 1 1 0) (PTmp 0 0); EvMC 2 (PArch 1 1 0) (PTmp 0 1);
+                         EvD 2 (PTmp 0 0); EvD 2 (PTmp 0 1)] /\
+  lc_ok (destroy_pals fx_cis) (hist_of2 fx_cis ops) = false.
+Proof. vm_compute. repeat split. Qed.
+
+(* ... while the same commands in DIFFERENT packs (another entity's command in between) are fine: the removal is applied
+   (the instance is destroyed) before the pack with the assign starts *)
+Example C03_remove_and_assign_in_different_packs_is_accepted :
+  let ops := [XoCreate 0 2%N [] false; XoCreate 0 0%N [] false; XoLock; XoRemove 0 0 1 false; XoAssign 0 1 0 None; XoAssign 0 0 1 None; XoUnlock] in
+  forallb (alphaL_b fx_cis) ops = true /\ x_viol (xrun 2 fx_cis ops) = 0 /\ xra_script 2 fx_cis ops = true /\ ra_script false 2 fx_cis ops = true /\
+  lc_ok (destroy_pals fx_cis) (hist_of2 fx_cis ops) = true /\
+  lc_live (destroy_pals fx_cis) (hist_of2 fx_cis ops) = [PArch 0 1 0].
+Proof. vm_compute. repeat split. Qed.
+
+(* the model-level contract is more permissive: a command through a handle that was never issued (entity number 5) is
+   recorded by the model through the null handle and splits the pack; the specification does not record it *)
+Example C03_model_contract_is_more_permissive :
+  let ops := [XoCreate 0 2%N [] false; XoLock; XoRemove 0 0 1 false; XoAssign 0 5 0 None; XoAssign 0 0 1 None; XoUnlock] in
+  forallb (alphaL_b fx_cis) ops = true /\ x_viol (xrun 2 fx_cis ops) = 0 /\ xra_script 2 fx_cis ops = false /\ ra_script false 2 fx_cis ops = true /\
+  hist_of2 fx_cis ops = [EvC 2 (PArch 0 1 0); EvC 2 (PTmp 0 1); EvD 2 (PArch 0 1 0); EvMC 2 (PArch 0 1 0) (PTmp 0 1); EvD 2 (PTmp 0 1)] /\
+  lc_ok (destroy_pals fx_cis) (hist_of2 fx_cis ops) = true /\ lc_live (destroy_pals fx_cis) (hist_of2 fx_cis ops) = [PArch 0 1 0].
+Proof. vm_compute. repeat split. Qed.
